@@ -8,6 +8,7 @@ import LW.Driver.Ops
 import LW.Spec.Mac
 import LW.Spec.Frame
 import LW.Spec.Crypto
+import LW.Spec.Addr
 import LW.Known
 namespace LW.Driver
 open LW LW.Canon
@@ -327,6 +328,52 @@ def verdicts (st : DState) (op : String) (args : List String) (goRes : String) :
             | none => []
         | _, _ => []
       | none => []
+    | "setprefix", [n, a] =>
+      match n.toNat?, a.toNat?, res with
+      | some n, some a, some [r] => if r.toNat? == some (Spec.addrWithPrefix n a) then [] else [("C11", "prefix-differs-from-addressing-rules")]
+      | _, _, _ => []
+    | "isnetid", [n, a] =>
+      match n.toNat?, a.toNat?, res with
+      | some n, some a, some [r] => if (r == "1") == Spec.addrInNetID n a then [] else [("C11", "membership-differs-from-addressing-rules")]
+      | _, _, _ => []
+    | "netidinfo", [n] =>
+      match n.toNat?, res with
+      | some n, some [t, idh] =>
+        let idw := Spec.netIDWidth (Spec.netIDTypeOf n)
+        let want := (leBytes ((idw + 7) / 8) (Spec.netIDIdOf n)).reverse
+        if t.toNat? == some (Spec.netIDTypeOf n) && unhx idh == some want then [] else [("C11", "netid-type-or-id-differs")]
+      | _, _ => []
+    | "nwkid", [a] =>
+      match a.toNat?, res with
+      | some a, some [t, idh] =>
+        (match Spec.addrType a with
+         | some ty =>
+           let want := (leBytes ((Spec.nwkIDWidth ty + 7) / 8) (Spec.addrNwkID a ty)).reverse
+           if t.toInt? == some (ty : Int) && unhx idh == some want then [] else [("C11", "nwkid-differs")]
+         | none => if t == "-1" && idh == "nil" then [] else [("C11", "nwkid-differs")])
+      | _, _ => []
+    | "idrepr", [_, h] =>
+      match unhx h, res with
+      | some b, some [t, bin, val] =>
+        if t == "t" ++ hexOfBytes b && unhx bin == some b.reverse && unhx val == some b then [] else [("C11", "representation-differs")]
+      | some _, _ => [("C11", "representation-failed")]
+      | _, _ => []
+    | "idparse", [k, how, a] =>
+      let len := if k == "EUI64" then 8 else if k == "DevAddr" then 4 else if k == "NetID" then 3 else 16
+      let want : Option Bytes :=
+        if how == "text" then
+          (let cs := (sdrop a 1).toList
+           let cs := match cs with | '0' :: 'x' :: r => r | _ => cs
+           match hexDecodeChars cs with | some b => (if b.length == len then some b else none) | none => none)
+        else if how == "bin" then (match unhx a with | some b => (if b.length == len then some b.reverse else none) | none => none)
+        else if how == "scan" then (match unhx a with | some b => (if b.length == len then some b else none) | none => none)
+        else none
+      match res, want with
+      | some [r], some w => if unhx r == some w then [] else [("C11", "parsed-value-differs")]
+      | none, none => []
+      | some _, none => [("C11", "accepts-malformed-identifier")]
+      | none, some _ => [("C11", "rejects-wellformed-identifier")]
+      | _, _ => []
     | _, _ => []
 
 def verdict (prop : String) (st : DState) (op : String) (args : List String) (goRes : String) : String :=
